@@ -527,10 +527,45 @@ fn run_checked(history: &[Argv], op: &Argv) -> Result<String, (String, String)> 
     }
     let pre_state = key_state(&sys.model, op);
     let pre = sys.model.fingerprint();
+    // cause tag for the counter commands: is the stored operand something Redis itself would not accept as an integer
+    // ("+1", "01", " 1": the listed lenient-parsing deviation)? A counter command that should fail on a CANONICAL operand
+    // (overflow) and does not is another matter and must not share that signature.
+    let operand_tag = {
+        let name = String::from_utf8_lossy(&op[0]).to_ascii_uppercase();
+        let canonical = |b: &[u8]| -> bool { std::str::from_utf8(b).ok().map(|t| t.parse::<i64>().map(|n| n.to_string() == t).unwrap_or(false)).unwrap_or(false) };
+        let stored: Option<Vec<u8>> = match (name.as_str(), op.get(1).and_then(|k| sys.model.keys.get(k))) {
+            ("INCR" | "DECR" | "INCRBY" | "DECRBY", Some(e)) => match &e.val {
+                vh::model::MVal::Str(b) => Some(b.to_vec()),
+                _ => None,
+            },
+            ("HINCRBY", Some(e)) => match (&e.val, op.get(2)) {
+                (vh::model::MVal::Hash(h), Some(f)) => h.get(f.as_slice()).map(|b| b.to_vec()),
+                _ => None,
+            },
+            _ => None,
+        };
+        match stored {
+            Some(b) if !canonical(&b) => " stored-operand=noncanonical",
+            _ => "",
+        }
+    };
     let (mm, shown) = sys.apply(op);
     if let Some(m) = mm {
         let _ = &pre_state;
-        let sig = format!("reply {}: {}", op_shape(op), m.0);
+        // integer-vs-integer mismatches also say how far off the reply is
+        let delta_tag = {
+            let ints: Vec<i128> = m.1.split(|c: char| c == ' ').filter_map(|t| t.strip_prefix(':')).filter_map(|t| t.parse::<i128>().ok()).collect();
+            if m.0 == "exp=int got=int" && ints.len() == 2 {
+                match ints[1] - ints[0] {
+                    1 => "(+1)",
+                    -1 => "(-1)",
+                    _ => "(other)",
+                }
+            } else {
+                ""
+            }
+        };
+        let sig = format!("reply {}: {}{}{}", op_shape(op), m.0, delta_tag, if m.0.starts_with("exp=-ERR") { operand_tag } else { "" });
         let m = m.1;
         let detail = format!("after [{}] (state {}): `{}` -> {}", show_hist(history), pre, resp::show_argv(op), m);
         return Err((sig, detail));
